@@ -16,6 +16,7 @@ import (
 	"github.com/mycoria/mycoria/peering"
 	"github.com/mycoria/mycoria/router"
 	"github.com/mycoria/mycoria/state"
+	"github.com/mycoria/mycoria/storage"
 	"github.com/mycoria/mycoria/switchr"
 	"github.com/mycoria/mycoria/tun"
 )
@@ -29,6 +30,7 @@ type rnode struct {
 	cfg      *config.Config
 	stub     *inst.AnceStub
 	st       *state.State
+	mem      *storage.MemStorage
 	sw       *switchr.Switch
 	pe       *peering.Peering
 	ro       *router.Router
@@ -82,7 +84,8 @@ func (w *rworld) addNode(name string, store config.Store, id *m.Address) (*rnode
 	n.builder.SetFrameMargins(peering.FrameOffset, peering.FrameOverhead)
 	n.tun = &tun.Device{RecvRaw: make(chan []byte, 64), SendRaw: make(chan []byte, 256), SendFrame: make(chan frame.Frame, 256)}
 	n.stub = &inst.AnceStub{VersionStub: "verif", ConfigStub: cfg, IdentityStub: id, FrameBuilderStub: n.builder, TunDeviceStub: n.tun}
-	n.st = state.New(n.stub, nil)
+	n.mem = storage.NewMemStorage()
+	n.st = state.New(n.stub, n.mem)
 	n.stub.StateStub = n.st
 	n.upstream = make(chan frame.Frame, 4096)
 	n.sw = switchr.New(n.stub, n.upstream)
